@@ -205,7 +205,40 @@ func main() {
 	t.Close(extra)
 }
 
+// switchConfig: GetCodecUpgradeHeight / IsAfterCodecUpgrade under generated values of the package
+// globals (restored afterwards).
+func switchConfig(r *gen.R, t *gen.Trace, cdc *codec.Codec, n int) {
+	uh0, ouh0, tm0 := codec.UpgradeHeight, codec.OldUpgradeHeight, codec.TestMode
+	defer func() {
+		codec.UpgradeHeight, codec.OldUpgradeHeight, codec.TestMode = uh0, ouh0, tm0
+		cdc.DisableUpgradeOverride()
+	}()
+	hs := []int64{0, 1, 49, 50, 51, 99, 100, 101, 30023, 30024, 30025, 45353, -1, -2, 9000000}
+	for i := 0; i < n; i++ {
+		uh := []int64{uh0, 100, 30024, 30023, 30025, 50, 1, 0}[r.Intn(8)]
+		ouh := []int64{0, 50, 100, 101, 30024, 1}[r.Intn(6)]
+		ov := []int{-1, -1, -1, 0, 1}[r.Intn(5)]
+		tm := int64(0)
+		if r.Chance(1, 6) {
+			tm = -1
+		}
+		h := hs[r.Intn(len(hs))]
+		codec.UpgradeHeight, codec.OldUpgradeHeight, codec.TestMode = uh, ouh, tm
+		switch ov {
+		case -1:
+			cdc.DisableUpgradeOverride()
+		case 0:
+			cdc.SetUpgradeOverride(false)
+		default:
+			cdc.SetUpgradeOverride(true)
+		}
+		t.Line("isafter", ov == -1 && tm == 0, "isafter %d %d %d %s %d => %d %v", uh, ouh, ov, b01(tm <= -1), h,
+			codec.GetCodecUpgradeHeight(), cdc.IsAfterCodecUpgrade(h))
+	}
+}
+
 func runRoundTrips(r *gen.R, t *gen.Trace, cdc *codec.Codec, d *dumper, n int) {
+	switchConfig(r, t, cdc, 80)
 	es := registry()
 	for i := 0; i < n; i++ {
 		e := es[i%len(es)]
